@@ -336,6 +336,8 @@ fn emit_rt(out: &mut Out, fmt: &str, id: u64, kind: &str, p: &Pic, buf: &Buffer,
     ev["save"] = json!("ok");
     ev["nbytes"] = json!(bytes.len());
     ev["head3"] = json!(bytes.iter().take(3).collect::<Vec<_>>());
+    // does the file itself switch the reader to iCE colours (CSI ? 33 h)?  Then the reader stores bright backgrounds, never the blink bit
+    ev["ice_seq"] = json!(bytes.windows(6).any(|w| w == b"\x1b[?33h") as u8);
     // the SAUCE record (if any) is not part of the token stream
     let end = if so.save_sauce { icy_engine::SauceData::extract(&bytes).ok().flatten().map_or(bytes.len(), |s| bytes.len() - s.sauce_header_len) } else { bytes.len() };
     if !tokens {
